@@ -292,6 +292,22 @@ def targets(ctx):
         case["mut"] = draw(st.integers(0, 40))
         return case
 
+    # dense values (many fields of the container-heavy messages) under at least two observers
+    dense_base = cm.msg_tree_strategy(c, names=["Maps"] * 3 + ["Repeats"] * 3 + ["Wrappers", "Optionals", "Times", "Scalars"], max_fields=12)
+
+    @st.composite
+    def dense(draw):
+        case = dict(draw(dense_base))
+        case["source"] = draw(st.sampled_from(["construct", "parse", "from_dict"]))
+        case["unknown"], case["pos"] = [], []
+        obs = draw(st.lists(st.sampled_from(OBSERVERS[:-2]), min_size=2, max_size=5))
+        if case["msg"] in RECURSIVE_TYPES:
+            obs = [o for o in obs if not o.endswith("_defaults")]
+        case["observers"] = obs
+        case["copies"] = draw(st.lists(st.sampled_from(["copy", "deepcopy", "pickle"]), min_size=1, max_size=2))
+        case["mut"] = draw(st.integers(0, 40))
+        return case
+
     # payloads beyond 1 KiB / 64 KiB, copied several times in a row (each copy is mutated before the next is taken)
     @st.composite
     def big(draw):
@@ -320,6 +336,7 @@ def targets(ctx):
 
     return [
         Target("observer_and_copy_histories", ev, strategy=strat(), quick=400, thorough=6000, time_quick=80),
+        Target("dense_values_observed", ev, strategy=dense(), quick=150, thorough=2500, time_quick=60),
         Target("big_payload_copy_chains", ev, strategy=big(), quick=40, thorough=400),
         Target("known_finding_probe", ev, cases=probe_cases, exhaustive=True, shard_cases=False),
         _seq.target("C14"),
